@@ -23,7 +23,7 @@ from __future__ import annotations
 
 import ast
 
-from ..astutil import callee_name, calls, text
+from ..astutil import call_recv, callee_name, calls, text
 from ..core import Result
 from ..model import AnchorMissing, Repo, fold_str_set, walk_no_nested
 
@@ -143,7 +143,7 @@ def run(repo: Repo) -> Result:
             if isinstance(c.func, ast.Name) and c.func.id in ("Undefined", "StrictUndefined", "DebugUndefined"):
                 res.ob(f"ctor:{f.qual}")
                 res.add("C16-ENV", f.qual, f"ctor:{c.func.id}", f"{f.qual} constructs {c.func.id}(...) directly instead of the environment's configured undefined type", f.file, c.lineno)
-            if callee_name(c) == "undefined" and isinstance(c.func, ast.Attribute) and text(c.func.value).endswith("env"):
+            if callee_name(c) == "undefined" and isinstance(c.func, ast.Attribute) and text(call_recv(c)).endswith("env"):
                 n += 1
     res.ob("env.undefined-sites", max(n, 1))
     if n < 8:
